@@ -527,6 +527,10 @@ def check_orchestration(ctx, case):
 
 
 def replay(ctx, case):
+    if case.get("kind") == "wiring":
+        from . import wiring
+
+        return wiring.check_wiring(ctx, case)
     if case.get("kind") == "orchestration":
         return check_orchestration(ctx, case)
     return check_instance(ctx, case)
@@ -536,3 +540,6 @@ def run(ctx):
     q = ctx.quick
     ctx.hyp("kernels", instance(120 if q else 600, 4 if q else 5, 3 if q else 4), check_instance, 60 if q else 200)
     ctx.hyp("orchestration", orchestration_case(), check_orchestration, 25 if q else 120)
+    from . import wiring
+
+    ctx.hyp("wiring", wiring.wiring_case("assemble"), wiring.check_wiring, 10 if q else 40)
